@@ -39,6 +39,15 @@ pub struct Rec {
     pub features: u64,
     pub pfeatures: u64,
     pub outcome: u64,
+    /// when set, calls are neither logged nor failed (used for synchronisation round trips)
+    pub quiet: bool,
+    /// when set, the scripted outcome applies to this handler only (others succeed)
+    pub only: Option<String>,
+    /// the sending side lives in this process too and still holds its own copy of every descriptor
+    pub sender_in_process: bool,
+    /// descriptor numbers open before the current step (sender in the same process)
+    pub pre_fds: std::collections::HashSet<i32>,
+    pub cur: String,
     pub calls: Vec<Val>,
     pub held: Vec<File>,
     pub held_ids: Vec<u64>,
@@ -53,13 +62,23 @@ fn n(v: u64) -> Val {
 }
 
 impl Rec {
+    fn oc(&self) -> u64 {
+        match &self.only {
+            Some(n) if *n != self.cur => 0,
+            _ => self.outcome,
+        }
+    }
     fn call(&mut self, name: &str, mut args: Vec<Val>) {
+        self.cur = name.to_string();
+        if self.quiet {
+            return;
+        }
         let mut v = vec![Val::s(name)];
         v.append(&mut args);
         self.calls.push(Val::L(v));
     }
     fn res(&self) -> Result<()> {
-        if self.outcome == 0 {
+        if self.oc() == 0 {
             Ok(())
         } else {
             Err(Error::ReqHandlerError(std::io::Error::from_raw_os_error(libc::EINVAL)))
@@ -89,12 +108,36 @@ impl Rec {
     /// the descriptor wrapped inside a Backend/GpuBackend: the known inode that is open in the
     /// process but not held by the handler
     fn hidden_id(&mut self) -> Vec<u64> {
+        if self.sender_in_process {
+            // descriptors that appeared in the process during this step and belong to a known file
+            let mut out = vec![];
+            if let Ok(rd) = std::fs::read_dir("/proc/self/fd") {
+                for e in rd.flatten() {
+                    if let Ok(n) = e.file_name().to_string_lossy().parse::<i32>() {
+                        if !self.pre_fds.contains(&n) {
+                            let id = self.fdt.lock().unwrap().id_of_fd(n);
+                            if id != 9999 && !(1000..=1002).contains(&id) && !self.held_ids.contains(&id) {
+                                out.push(id);
+                            }
+                        }
+                    }
+                }
+            }
+            out.sort();
+            return out;
+        }
         let present = self.fdt.lock().unwrap().present();
         let mut held = self.held_ids.clone();
         held.extend_from_slice(&self.hidden_ids);
         let mut out = vec![];
+        let mut seen_once: Vec<u64> = vec![];
         for p in present {
-            if p >= 1000 {
+            if (1000..=1002).contains(&p) {
+                continue;
+            }
+            if self.sender_in_process && !seen_once.contains(&p) {
+                // the first occurrence is the sender's own copy
+                seen_once.push(p);
                 continue;
             }
             if let Some(pos) = held.iter().position(|h| *h == p) {
@@ -127,7 +170,7 @@ impl VhostUserBackendReqHandlerMut for Rec {
     }
     fn get_features(&mut self) -> Result<u64> {
         self.call("get_features", vec![]);
-        if self.outcome == 0 {
+        if self.oc() == 0 {
             Ok(self.features)
         } else {
             self.fail()
@@ -168,7 +211,7 @@ impl VhostUserBackendReqHandlerMut for Rec {
     }
     fn get_vring_base(&mut self, index: u32) -> Result<VhostUserVringState> {
         self.call("get_vring_base", vec![n(index as u64)]);
-        if self.outcome == 0 {
+        if self.oc() == 0 {
             Ok(VhostUserVringState::new(index, ((index as u64 * 7 + 3) & 0xffff_ffff) as u32))
         } else {
             self.fail()
@@ -191,7 +234,7 @@ impl VhostUserBackendReqHandlerMut for Rec {
     }
     fn get_protocol_features(&mut self) -> Result<VhostUserProtocolFeatures> {
         self.call("get_protocol_features", vec![]);
-        if self.outcome == 0 {
+        if self.oc() == 0 {
             Ok(VhostUserProtocolFeatures::from_bits_truncate(self.pfeatures))
         } else {
             self.fail()
@@ -203,7 +246,7 @@ impl VhostUserBackendReqHandlerMut for Rec {
     }
     fn get_queue_num(&mut self) -> Result<u64> {
         self.call("get_queue_num", vec![]);
-        if self.outcome == 0 {
+        if self.oc() == 0 {
             Ok(4660)
         } else {
             self.fail()
@@ -216,7 +259,7 @@ impl VhostUserBackendReqHandlerMut for Rec {
     fn get_config(&mut self, offset: u32, size: u32, flags: VhostUserConfigFlags) -> Result<Vec<u8>> {
         self.call("get_config", vec![n(offset as u64), n(size as u64), n(flags.bits() as u64)]);
         let full: Vec<u8> = (0..size as u64).map(|i| ((offset as u64 + i) % 251) as u8).collect();
-        match self.outcome {
+        match self.oc() {
             0 => Ok(full),
             2 => Ok(full[..full.len().saturating_sub(1)].to_vec()),
             _ => self.fail(),
@@ -239,7 +282,7 @@ impl VhostUserBackendReqHandlerMut for Rec {
     }
     fn get_shared_object(&mut self, uuid: VhostUserSharedMsg) -> Result<File> {
         self.call("get_shared_object", vec![Val::H(uuid.uuid.as_bytes().to_vec())]);
-        if self.outcome == 0 {
+        if self.oc() == 0 {
             Ok(self.own_file(1000))
         } else {
             self.fail()
@@ -250,7 +293,7 @@ impl VhostUserBackendReqHandlerMut for Rec {
             "get_inflight_fd",
             vec![n(inflight.mmap_size), n(inflight.mmap_offset), n(inflight.num_queues as u64), n(inflight.queue_size as u64)],
         );
-        if self.outcome == 0 {
+        if self.oc() == 0 {
             // a zeroed value, so that padding bytes are deterministic
             let mut r: VhostUserInflight = unsafe { std::mem::zeroed() };
             r.mmap_size = inflight.mmap_size.wrapping_add(1);
@@ -278,7 +321,7 @@ impl VhostUserBackendReqHandlerMut for Rec {
     }
     fn get_max_mem_slots(&mut self) -> Result<u64> {
         self.call("get_max_mem_slots", vec![]);
-        if self.outcome == 0 {
+        if self.oc() == 0 {
             Ok(509)
         } else {
             self.fail()
@@ -301,7 +344,7 @@ impl VhostUserBackendReqHandlerMut for Rec {
     ) -> Result<Option<File>> {
         let id = self.keep(fd);
         self.call("set_device_state_fd", vec![n(direction as u64), n(phase as u64), Val::L(vec![n(id)])]);
-        match self.outcome {
+        match self.oc() {
             0 => Ok(None),
             2 => Ok(Some(self.own_file(1002))),
             _ => self.fail(),
@@ -313,7 +356,7 @@ impl VhostUserBackendReqHandlerMut for Rec {
     }
     fn get_shmem_config(&mut self) -> Result<VhostUserShMemConfig> {
         self.call("get_shmem_config", vec![]);
-        if self.outcome == 0 {
+        if self.oc() == 0 {
             Ok(VhostUserShMemConfig::new(2, &[4096, 8192]))
         } else {
             self.fail()
@@ -338,6 +381,11 @@ pub fn new_rec(features: u64, pfeatures: u64, fdt: Arc<Mutex<FdTable>>) -> Rec {
         features,
         pfeatures,
         outcome: 0,
+        quiet: false,
+        only: None,
+        sender_in_process: false,
+        pre_fds: Default::default(),
+        cur: String::new(),
         calls: vec![],
         held: vec![],
         held_ids: vec![],
